@@ -128,7 +128,19 @@ def metricsJHandlers : List (String × JHandler) := [
         let n (x : Json) : Except String Nat := do pure (← jRatOf x).num.toNat
         pure (⟨← n a, ← n b, ← n c, ← n v, ← n nu, ← n nf, ← n p⟩ : Manager.Effect)
       | _ => throw "effects: expected [posA, posB, cols, vals, cellsUser, cellsFill, prices]")
-    let strats := effects.zipIdx.map (fun (e, i) => Manager.probeFStrat e (fails.getD i false))
+    -- process-wide state: `gwrites` = per strategy, how much its backtest leaves changed in the process it ran in (missing: nothing);
+    -- every backtest observes the state it finds (`foundG`); the caller's process and spawned workers start at 0
+    let natArr (k : String) : Except String (List Nat) := match jOpt j k with
+      | none => pure []
+      | some (.arr a) => a.toList.mapM (fun x => do pure (← jRatOf x).num.toNat)
+      | some _ => throw (k ++ ": expected an array of naturals")
+    let gwrites ← natArr "gwrites"
+    if !gwrites.isEmpty && gwrites.length != effs.size then throw "gwrites: one entry per strategy expected"
+    let assigned ← natArr "assign"
+    if !assigned.isEmpty && assigned.length != effs.size then throw "assign: one worker index per strategy expected"
+    -- … on top of what the source says the Actuator itself leaves behind (a class-level `Snapshot.market_status`: every backtest writes)
+    let strats := effects.zipIdx.map (fun (e, i) =>
+      (Manager.probeGStrat e (fails.getD i false) (gwrites.getD i 0)).underActuator Gen.snapshotHoldsNoSharedObject (fun g _ _ => g + 1))
     let cpu := match jOpt j "cpu" with | some (.num n) => n.mantissa.toNat | _ => 1024
     let env := Manager.probeEnv (flag "priceDec" false) (flag "linked" false)
     let cfg : Option Manager.PM := if flag "cfgNone" false then none else some (0, 0, true)
@@ -136,16 +148,21 @@ def metricsJHandlers : List (String × JHandler) := [
     -- scheduling: round-robin, or every task on the same worker (`oneWorker`); and, where tasks are fetched with `.get()`, every
     -- later task finished when the first failure re-raises, or none of them (`noneFinished`): where the answers differ the
     -- prediction depends on the schedule (never with the current code)
-    let assign : Nat → Nat := if flag "oneWorker" false then (fun _ => 0) else (fun i => i % (max threads 1))
+    -- `assign` = the observed assignment (worker index per task, in submission order), if the request carries one
+    let assign : Nat → Nat := if flag "oneWorker" false then (fun _ => 0)
+      else if !assigned.isEmpty then (fun i => assigned.getD i 0) else (fun i => i % (max threads 1))
     let finished : Nat → Bool := if flag "noneFinished" false then (fun _ => false) else (fun _ => true)
-    let answer (outcome : String) (res : List (Option (Manager.PM × Manager.PData))) : Json :=
+    let answer (outcome : String) (res : List (Option ((Manager.PM × Manager.PData) × Nat))) : Json :=
       Json.mkObj [("outcome", .str outcome),
         ("results", .arr (res.map (fun r => Json.bool r.isSome)).toArray),
         ("found", .arr (res.map (fun r => match r with
           | none => Json.null
-          | some o => Json.arr #[natJ o.1.1, natJ o.1.2.1, .bool o.1.2.2, natJ o.2.cols, natJ o.2.vals,
-              natJ o.2.cells, natJ o.2.prices.1])).toArray)]
-    match Manager.managerRunF env md fm threads cpu (flag "windows" false) (flag "ctxSet" false) assign finished cfg dat strats with
+          | some (o, _) => Json.arr #[natJ o.1.1, natJ o.1.2.1, .bool o.1.2.2, natJ o.2.cols, natJ o.2.vals,
+              natJ o.2.cells, natJ o.2.prices.1])).toArray),
+        ("foundG", .arr (res.map (fun r => match r with
+          | none => Json.null
+          | some (_, g) => natJ g)).toArray)]
+    match Manager.managerRunG env md fm threads cpu (flag "windows" false) (flag "ctxSet" false) assign finished 0 0 cfg dat strats with
     | .done res => pure (answer "ok" res)
     | .aborted res => pure (answer "aborted" res)
     | .raised cls => pure (Json.mkObj [("outcome", .str cls)]))
